@@ -47,6 +47,7 @@ Definition run (comp : Z) (inp : list Z) : list Z :=
   else if comp =? 122 then run_send_copy inp
   else if comp =? 123 then run_conc_fan inp
   else if comp =? 126 then run_conc_mix inp
+  else if comp =? 127 then run_conc_helpers inp
   else if comp =? 124 then run_conc_close inp
   else if comp =? 125 then run_conc_pq inp
   else if comp =? 111 then run_server inp
